@@ -645,6 +645,71 @@ def round_quotients(view):
     return v
 
 
+IBAQ_RTOL = Fraction(1, 10 ** 12)
+
+
+def _skey(x):
+    import json
+
+    return json.dumps(x, sort_keys=True, default=str)
+
+
+def oracle_form(view):
+    """a recomputation / an implementation output up to what the property TEXT fixes (audit-3, C12-1/2/4): the precursors
+    attached to a group, the precursors kept after the identification filter, the evidence ids of a group and the list of
+    PEPs handed on are collections -- every C12 column is a sum, a count, an `any` or a set over them, and the text names
+    no order.  The ORDER the code keeps them in is pinned by the model and compared on the correspondence side
+    (model_view / impl_view are compared as they are)."""
+    if not isinstance(view, dict):
+        return view
+    v = dict(view)
+    if isinstance(v.get("attached"), list):
+        v["attached"] = [sorted(a, key=_skey) if isinstance(a, list) else a for a in v["attached"]]
+    if isinstance(v.get("peps"), list):
+        v["peps"] = sorted(v["peps"], key=_skey)
+    if isinstance(v.get("groups"), list):
+        gs = []
+        for g in v["groups"]:
+            if isinstance(g, dict):
+                g = dict(g)
+                if isinstance(g.get("quants"), list):
+                    g["quants"] = sorted(g["quants"], key=_skey)
+                if isinstance(g.get("evidenceIds"), list):
+                    g["evidenceIds"] = sorted(g["evidenceIds"], key=_skey)
+            gs.append(g)
+        v["groups"] = gs
+    return v
+
+
+def _close_rat(a, b, rtol=IBAQ_RTOL):
+    try:
+        x, y = unrat(a), unrat(b)
+    except Exception:
+        return False
+    return x == y or abs(x - y) <= rtol * max(abs(x), abs(y))
+
+
+def accept_close_ibaq(want, got):
+    """audit-3, C12-3: "iBAQ (intensity divided by the leading protein's theoretical peptide number, at least 1)" fixes the
+    real quotient, not one floating-point evaluation of it: i / n, i * (1.0 / n) ... all satisfy the text.  An iBAQ value
+    of the implementation within 1e-12 (relative) of the recomputed quotient is taken over into `want`; the correctly
+    rounded single division stays pinned on the correspondence side (model_view rounds the model's rational once)."""
+    if not (isinstance(want, dict) and isinstance(got, dict) and isinstance(want.get("groups"), list) and isinstance(got.get("groups"), list)):
+        return want
+    if len(want["groups"]) != len(got["groups"]):
+        return want
+    gs = []
+    for w, g in zip(want["groups"], got["groups"]):
+        if isinstance(w, dict) and isinstance(g, dict):
+            w = dict(w)
+            if "ibaqTotal" in g and _close_rat(w.get("ibaqTotal"), g["ibaqTotal"]):
+                w["ibaqTotal"] = g["ibaqTotal"]
+            if isinstance(g.get("ibaq"), list) and isinstance(w.get("ibaq"), list) and len(g["ibaq"]) == len(w["ibaq"]):
+                w["ibaq"] = [y if _close_rat(x, y) else x for x, y in zip(w["ibaq"], g["ibaq"])]
+        gs.append(w)
+    return dict(want, groups=gs)
+
+
 def first_diff(a, b, path=""):
     if type(a) != type(b):
         return f"{path}: {a!r} vs {b!r}"
@@ -712,10 +777,93 @@ def fmt_cell(x):
     return fmt0(unrat(x))
 
 
-def table_from_view(view):
-    """model / oracle values -> {header: text} per reported row, in the MaxQuant writer's header names"""
+class _Raw:
+    """a cell of the recomputed table as a VALUE (oracle side, audit-3 C12-5): kind 'num' (Fraction or int), 'ids' (a
+    collection of integers), 'ints' (one integer per protein of the group, in the group's order), 'text'"""
+
+    def __init__(self, kind, val):
+        self.kind, self.val = kind, val
+
+    def __repr__(self):
+        return "%s:%r" % (self.kind, self.val)
+
+
+def _raw_cell(x):
+    if isinstance(x, str):
+        return _Raw("text", x)
+    if isinstance(x, int):
+        return _Raw("num", Fraction(x))
+    return _Raw("num", unrat(x))
+
+
+def _parse_ints(text):
+    try:
+        return [int(float(t)) if float(t) == int(float(t)) else float(t) for t in text.split(";") if t.strip() != ""]
+    except (ValueError, OverflowError):
+        return None
+
+
+def cell_diff(want, text):
+    """does the written cell `text` hold the recomputed value?  Numbers are compared as numbers: the writer's number
+    format ('%.0f' today) is not part of the property, so a written number must lie within 0.5 (+ 1e-12 relative) of the
+    recomputed one -- which every rounding to integers or to more digits does; evidence ids as a collection of integers."""
+    if isinstance(want, str):  # identification types: the text itself
+        want = _Raw("text", want)
+    if not isinstance(text, str):
+        return "%r vs %r" % (want, text)
+    if want.kind == "text":
+        return None if text == want.val else "%r vs %r" % (want.val, text)
+    if want.kind == "num":
+        try:
+            v = Fraction(float(text)) if text.strip().lower() not in ("nan", "inf", "-inf", "") else None
+        except (ValueError, OverflowError):
+            v = None
+        if v is None:
+            return "%r vs %r" % (float(want.val), text)
+        slack = Fraction(1, 2) + IBAQ_RTOL * abs(want.val)
+        return None if abs(v - want.val) <= slack else "%r vs %r" % (float(want.val), text)
+    got = _parse_ints(text)
+    if got is None:
+        return "%r vs %r" % (want.val, text)
+    if want.kind == "ids":
+        return None if sorted(got, key=float) == sorted(want.val) else "ids %r vs %r" % (sorted(want.val), text)
+    return None if got == list(want.val) else "%r vs %r" % (want.val, text)
+
+
+def table_value_diff(want, written, path="table"):
+    """the oracle's comparison of a written proteinGroups.txt with the recomputation (`want` = table_from_view(..., raw=True)):
+    the same reported rows (identifier cell), and under every header the recomputation names that the table HAS, the
+    recomputed value (cell_diff).  Headers of the table the recomputation does not name are not judged (other generators);
+    a header the recomputation names that the table lacks is not judged either -- the header STRINGS are the model's
+    (theorems cells_under_named_headers), compared as text on the correspondence side."""
+    if not isinstance(want, dict) or "rows" not in want:
+        return first_diff(want, written, path)
+    if not isinstance(written, dict) or "rows" not in written:
+        return "%s: %r vs %r" % (path, "rows", written)
+    wr, gr = want["rows"], written["rows"]
+    if len(wr) != len(gr):
+        return "%s.rows: length %d vs %d: %s vs %s" % (path, len(wr), len(gr), [r["ids"] for r in wr][:6], [r.get("ids") for r in gr][:6])
+    for i, (w, g) in enumerate(zip(wr, gr)):
+        if w["ids"] != g.get("ids"):
+            return "%s.rows[%d].ids: %r vs %r" % (path, i, w["ids"], g.get("ids"))
+        for h, c in w["cols"].items():
+            if h not in g["cols"]:
+                continue
+            d = cell_diff(c, g["cols"][h])
+            if d:
+                return "%s.rows[%d].cols.%s: %s" % (path, i, h, d)
+    return None
+
+
+def table_from_view(view, raw=False):
+    """model / oracle values -> {header: text} per reported row, in the MaxQuant writer's header names
+    (raw=True: {header: _Raw value}, for table_value_diff)"""
     if "groups" not in view:
         return view
+    if raw:
+        fmt_cell = _raw_cell
+    else:
+        fmt_cell = globals()["fmt_cell"]
     exps = view["experiments"]
     S = view["nSilac"] if view["nSilac"] > 0 else 0
     T = view["nTmt"]
@@ -728,7 +876,7 @@ def table_from_view(view):
             col["Identification type " + e] = g["idType"][i]
         col["Intensity"] = fmt_cell(g["total"])
         col["iBAQ"] = fmt_cell(g["ibaqTotal"])
-        col["Number of theoretical peptides iBAQ"] = ";".join(str(n) for n in g["nPeps"])
+        col["Number of theoretical peptides iBAQ"] = _Raw("ints", list(g["nPeps"])) if raw else ";".join(str(n) for n in g["nPeps"])
         k = 0
         for e in exps:
             col["Intensity " + e] = fmt_cell(g["intens"][k])
@@ -745,7 +893,7 @@ def table_from_view(view):
                     for i in range(1, T + 1):
                         col[kind + str(i) + " " + e] = fmt_cell(g["tmt"][k])
                         k += 1
-        col["Evidence IDs"] = ";".join(str(i) for i in g["evidenceIds"])
+        col["Evidence IDs"] = _Raw("ids", list(g["evidenceIds"])) if raw else ";".join(str(i) for i in g["evidenceIds"])
         rows.append({"ids": ";".join(g["ids"]), "cols": col})
     return {"rows": rows}
 
@@ -1485,14 +1633,17 @@ class P(Prop):
             return "no output: %r" % (impl_out,)
         if case.get("cli"):
             if "_rec" not in impl_out:
+                msg = str(impl_out.get("msg", ""))
+                if ("not enough values to unpack (expected 3, got 0)" in msg and "do_competition" in msg) or "No proteins with scores found" in msg:
+                    # the documented degenerate input (DESIGN.md §4): no group of the generated command line has a
+                    # peptide, `python -m picked_group_fdr --do_quant` ends before anything is quantified - C18's subject
+                    return None
                 return "CLI run gave no table: %r" % (impl_out,)
             abstract = cli_abstract(case, impl_out)
             if self._near_tie(abstract):
                 return None
-            want = table_from_view(round_quotients(recompute(abstract)))
-            if case["cli"] == "main" and "rows" in want:
-                pass
-            d = first_diff(want, self.impl_view(case, impl_out), "table")
+            want = table_from_view(round_quotients(recompute(abstract)), raw=True)
+            d = table_value_diff(want, self.impl_view(case, impl_out), "table")
             return ("written proteinGroups.txt differs from the recomputation (expected vs written) at " + d) if d else None
         if self._near_tie(case):
             return None
@@ -1523,9 +1674,10 @@ class P(Prop):
         if "headers" in impl_out and "groups" in want:
             want["headers"] = impl_out["headers"]  # header strings are part of the correspondence (model view) only
             want["cells"] = impl_out.get("cells")  # the flat cell order too (the oracle reads every cell by header name)
-        d = first_diff(want, impl_out, "out")
+        got = oracle_form(impl_out)
+        d = first_diff(accept_close_ibaq(oracle_form(want), got), got, "out")
         if d:
-            return "recomputation from the evidence rows differs (expected vs implementation) at " + d
+            return "recomputation from the evidence rows differs (expected vs implementation; lists of precursors, evidence ids and PEPs as collections) at " + d
         if "groups" in impl_out:
             # conservation: no row counted twice, none lost
             rows = all_rows(case)
@@ -1671,7 +1823,8 @@ class P(Prop):
                 "rows_with_two_or_more_modifications": sum(1 for c in cases for r in all_rows(c) if n_mods(r["pep"]) >= 2),
                 "compared": "every quantification column of the written proteinGroups.txt (counts, id types, "
                 "Intensity / iBAQ incl. SILAC, theoretical peptide numbers, TMT reporter sums, evidence ids) with the "
-                "model's values formatted by '%.0f' (half-even on the double), and with the Fraction recomputation",
+                "model's values formatted by '%.0f' (half-even on the double; text, correspondence side), and as numbers (within 0.5, "
+                "evidence ids as a collection, only the headers the recomputation names) with the Fraction recomputation (oracle)",
             },
         }
 
@@ -1811,6 +1964,6 @@ class P(_cm.QuantCliMixin, _BaseP):
             return None
         if self._near_tie(abstract):
             return None
-        want = table_from_view(round_quotients(recompute(abstract)))
-        d = first_diff(want, written_quant_rows(text), "table")
+        want = table_from_view(round_quotients(recompute(abstract)), raw=True)
+        d = table_value_diff(want, written_quant_rows(text), "table")
         return ("the quantification columns differ from the recomputation from the evidence rows (expected vs written) at " + d) if d else None
